@@ -312,7 +312,7 @@ def aimed_number(r, nums):
 
 def gen_case(r, big=False):
     proto = r.choice(["udp", "udp", "udp", "tcp", "ws"])
-    amode = r.choice([1, 1, 1, 0])
+    amode = r.choice([1, 1, 1, 0, 2]) if proto == "udp" else r.choice([1, 1, 1, 0])
     x = r.random()
     code = r.choice([1, 2, 3, 4]) if x < 0.6 else r.choice([65, 68, 69, 132, 160]) if x < 0.9 \
         else r.choice([225, 226, 228, 100, 255])
